@@ -101,6 +101,11 @@ type streamDebugger struct {
 	stackChecks              int
 	opVal, sepBefore         int
 	sepChecks                int
+	// what the last BeforeStackPop snapshot showed (sizes and tops of both stacks)
+	popSeen          bool
+	popDLen, popALen int
+	popDTop, popATop []byte
+	popChecks        int
 }
 
 func (d *streamDebugger) ev(kind byte, s *interpreter.State, data []byte) {
@@ -128,6 +133,31 @@ func (d *streamDebugger) ev(kind byte, s *interpreter.State, data []byte) {
 	case evAfterExecuteOpcode, evAfterError, evAfterExecute:
 		d.inOp = false
 	case evBeforeStackPush, evAfterStackPush, evBeforeStackPop, evAfterStackPop:
+		// a reported pop took place: between the Before and the After snapshot one of the two
+		// stacks lost exactly its top element, and that element is what AfterStackPop is handed
+		topOf := func(st [][]byte) []byte {
+			if len(st) == 0 {
+				return nil
+			}
+			return append([]byte{}, st[len(st)-1]...)
+		}
+		switch kind {
+		case evBeforeStackPop:
+			d.popSeen, d.popDLen, d.popALen, d.popDTop, d.popATop = true, len(s.DataStack), len(s.AltStack), topOf(s.DataStack), topOf(s.AltStack)
+		case evAfterStackPop:
+			if d.popSeen {
+				d.popChecks++
+				fromData := d.popDLen > 0 && len(s.DataStack) == d.popDLen-1 && len(s.AltStack) == d.popALen && bytes.Equal(data, d.popDTop)
+				fromAlt := d.popALen > 0 && len(s.AltStack) == d.popALen-1 && len(s.DataStack) == d.popDLen && bytes.Equal(data, d.popATop)
+				if d.incons == "" && !fromData && !fromAlt {
+					d.incons = fmt.Sprintf("callback %d (AfterStackPop of %x): no stack lost its top element between BeforeStackPop (data %d / alt %d items, tops %x / %x) and AfterStackPop (data %d / alt %d items)",
+						len(d.events)-1, data, d.popDLen, d.popALen, d.popDTop, d.popATop, len(s.DataStack), len(s.AltStack))
+				}
+			}
+			d.popSeen = false
+		default:
+			d.popSeen = false
+		}
 		if d.inOp {
 			d.stackChecks++
 			if d.incons == "" && (s.ScriptIdx != d.opScript || s.OpcodeIdx != d.opIdx || len(s.Scripts) != d.opCount) {
